@@ -13,7 +13,7 @@ meta.json). The worktree is removed at the end.
 """
 import glob, json, os, re, shutil, subprocess, sys
 
-PIN = "2404b90"
+PIN = os.environ.get("VERIF_PIN", "2404b90")
 WT = "/var/tmp/verif-seedconfirm"
 ENV = dict(os.environ)
 ENV.pop("GOTOOLCHAIN", None)
